@@ -452,6 +452,10 @@ def run_check(sim, prop, tier, verif_seed, n_runs=None, seconds=None, level="exp
         return 2
     selftest_info = res
     # 2. batch
+    import tempfile
+    import shutil
+    scratch = tempfile.mkdtemp(prefix="verif-scratch-")       # per-invocation scratch (oracle answer cache), removed below
+    os.environ["VERIF_ISO_CACHE"] = scratch
     n_dup = sim.n_dup(prop, tier)
     if n_runs is None and seconds is None:
         if tier == "quick":
@@ -582,6 +586,8 @@ def run_check(sim, prop, tier, verif_seed, n_runs=None, seconds=None, level="exp
     for vclass, v, path, cnt in reported:
         print("VIOLATION property=%s replay=%s class=%s runs=%d detail=%s"
               % (prop, path, vclass, cnt, json.dumps(v.get("detail"), default=str)[:600]))
+    shutil.rmtree(scratch, ignore_errors=True)
+    os.environ.pop("VERIF_ISO_CACHE", None)
     # 6. evidence
     wall = time.time() - t0
     ok_runs = len([r for r in results if not r.get("harness_error")])
